@@ -337,7 +337,7 @@ def _layer_evidence(e, n0, cap, thresh, extractors):
 
 
 def rule_licensed_exits(ctx, rid, fi, extractor_pred=None, cap='max_imfs', thresh='sift_thresh',
-                        extractors=('emd.sift.get_next_imf',), context=None):
+                        extractors=('emd.sift.get_next_imf',), context=None, must_leave=('cap', 'threshold', 'flag')):
     """Every way of leaving the layer loop is one of: the cap test, the sift threshold on the component just
     extracted, the flag returned by the extraction - and each of the three does stop the loop.  Decided on the
     evaluated ends of one loop iteration (first and later iterations): an iteration that leaves the loop must
@@ -379,6 +379,11 @@ def rule_licensed_exits(ctx, rid, fi, extractor_pred=None, cap='max_imfs', thres
                       node=loop, expected='a fired condition in {cap reached, |component| sum < threshold, '
                       'extraction flag False}', found='; '.join(ic[-6:]) or 'unconditional', path=trace_tail(e, 12))
     for k, what in names.items():
+        if k not in must_leave:
+            # only the "leaves for a licensed reason" direction is claimed for this condition
+            ctx.passed(rid, fi, 'licensed exit: ' + what, '%d leaving iteration ends fired on it (that it must stop the '
+                       'loop is not part of this property)' % n_leave[k], node=loop)
+            continue
         if k in bad_cont:
             e, why = bad_cont[k]
             ctx.violation(rid, fi, 'licensed exit: ' + what,
@@ -920,6 +925,11 @@ def rule_bounded_loop(ctx, rid, gni, limit='max_iters', exc='emd.support.EMDSift
                     passed = True
                 if is_counter and c[1] == '==' and truth is True and _floor_fraction_of(c[3], S(limit)):
                     passed = True      # lemma: k*m//d <= m for 0 <= k <= d, m >= 0
+                if is_counter and c[1] == '==' and truth is True and not any(
+                        t[0] == 's' and '@' in t[1] for t in subterms(c[3])):
+                    # the counter increases strictly, so it equals a loop-invariant value in at most one iteration:
+                    # the limit test is skipped at most once and the extraction stays bounded (limit + 1 iterations)
+                    passed = True
             if not passed:
                 bad = b
                 break
